@@ -151,8 +151,16 @@ struct Run {
 		if (all) { for (uint64_t y = 0; y < (1ull << (nbits < 63 ? nbits : 1)); ++y) conv_target(y); conv_fixed(g, 2000); }
 		else { conv_fixed(g, (unsigned)(count / 8)); for (uint64_t i = 0; i < count * (g_from ? 1 : 20); ++i) conv_target(operand(g)); }
 	}
+	static void limits() {
+		using L = std::numeric_limits<P>;
+		std::printf("posit %u %u limits => %llx %llx %llx %llx %llx %llx %d %d %d\n", nbits, es,
+			(unsigned long long)enc(L::min()), (unsigned long long)enc(L::max()), (unsigned long long)enc(L::lowest()),
+			(unsigned long long)enc(L::epsilon()), (unsigned long long)enc(P(SpecificValue::minneg)), (unsigned long long)enc(P(SpecificValue::maxneg)),
+			L::max_exponent, L::min_exponent, L::digits);
+	}
 	static void exhaustive() {
 		if (g_conv) { conversions(0, true); return; }
+		if (g_order) limits();
 		const uint64_t N = 1ull << nbits;
 		for (uint64_t a = 0; a < N; ++a) {
 			unary(a);
@@ -194,6 +202,7 @@ struct Run {
 	}
 	static void random(uint64_t count) {
 		if (g_conv) { conversions(count, false); return; }
+		if (g_order) limits();
 		uv::Rng g(uv::seed_from_env() * 1000003ull + nbits * 131ull + es);
 		const uint64_t M = uv::mask(nbits);
 		for (uint64_t i = 0; i < count; ++i) {
